@@ -187,7 +187,14 @@ def cases(chunk):
                 pts.append(p)
                 b1.append(b)
                 u = rng.random()
-                b2.append(_one_component_changed(rng, b) if u < 0.15 else _near(rng, b) if u < 0.4 else _point(rng))
+                if u < 0.10:
+                    # a second base a few centimetres to a few metres away, at the same height (a corrected survey
+                    # mark): 1e-7 .. 9e-5 degree
+                    d1 = rng.choice([-1, 1]) * 10.0 ** rng.uniform(-7, -4.05)
+                    d2 = rng.choice([-1, 1]) * 10.0 ** rng.uniform(-7, -4.05)
+                    b2.append([((b[0] + d1 + 180.0) % 360.0) - 180.0, _clamp(b[1] + d2, -89.9, 89.9), b[2]])
+                else:
+                    b2.append(_one_component_changed(rng, b) if u < 0.25 else _near(rng, b) if u < 0.45 else _point(rng))
             yield {"kind": "pts", "pts": pts, "b1": b1, "b2": b2}
     elif kind == "l93":
         for _ in range(chunk["n"]):
@@ -360,6 +367,14 @@ def _check_point(p, b1, b2, base_as_ecef, ctx):
     # --- ENU(b1) -> ENU(b2) -> ENU(b1)
     start = ENUCoords(enu1.E, enu1.N, enu1.U)
     enu2 = _need(M.call(start.toENUCoords, B1, B2), "ENUCoords.toENUCoords(b1,b2)", base2=b2, **info)
+    # the re-based coordinates are the local coordinates of the position in the second frame: they must agree with
+    # the direct conversion into that frame (there and back alone would not see a re-basing that did nothing)
+    direct2 = _need(M.call(g.toENUCoords, B2), "GeoCoords.toENUCoords(b2)", base2=b2, **info)
+    ctx.monitor("rebase.agrees_with_direct")
+    if not _finite(enu2.E, enu2.N, enu2.U) or _dist(_enu_t(enu2), _enu_t(direct2)) > 2 * TOL_M:
+        raise Bad({"what": "ENU(b1)->ENU(b2) disagrees with the direct conversion Geo->ENU(b2)", "position": p, "b1": b1,
+                   "b2": b2, "base_as_ecef": base_as_ecef, "rebased": _enu_t(enu2), "direct": _enu_t(direct2),
+                   "error_m": _dist(_enu_t(enu2), _enu_t(direct2))})
     enu3 = _need(M.call(enu2.toENUCoords, B2, B1), "ENUCoords.toENUCoords(b2,b1)", base2=b2, **info)
     ctx.monitor("rt.enu_enu_enu")
     if not _finite(enu3.E, enu3.N, enu3.U) or _dist(_enu_t(enu3), _enu_t(start)) > TOL_M:
